@@ -35,6 +35,9 @@ pub fn source(v: usize) -> Entry {
     };
     // constant across versions
     t.insert("d1/a", Entry::file(lcg(1, 300), T0 + 1));
+    // a directory which never changes: its tree blob is shared by all versions, so the tree pack of
+    // the first backup stays partly used when that snapshot is forgotten (tree repacking)
+    t.insert("d0/k", Entry::file(lcg(5, 120), T0 + 5));
     // changes with every version
     t.insert("d1/b", Entry::file(lcg(100 + v as u64, 200), T0 + 10 + v as i64));
     // multi-chunk file with a middle part depending on v
